@@ -150,7 +150,8 @@ C08_SCENARIO(conn_send_vs_close)
 
 C08_SCENARIO(conn_forceClose)
 {
-  ConnFixture f(150);
+  ConnFixture f(3000);                        // the peer stays until it sees the close (no peer close racing the operation:
+                                              // that is the lost-update consequence of F-11, see findings/C08.md)
   sleep_ms(20);
   f.conn->forceClose();                       // foreign thread, loop busy echoing
   sleep_ms(60);
@@ -158,7 +159,8 @@ C08_SCENARIO(conn_forceClose)
 
 C08_SCENARIO(conn_forceCloseWithDelay)
 {
-  ConnFixture f(150);
+  ConnFixture f(3000);                        // the peer stays until it sees the close (no peer close racing the operation:
+                                              // that is the lost-update consequence of F-11, see findings/C08.md)
   sleep_ms(20);
   f.conn->forceCloseWithDelay(0.02);
   sleep_ms(90);
@@ -179,7 +181,8 @@ C08_SCENARIO(conn_startStopRead)
 
 C08_SCENARIO(conn_shutdown)
 {
-  ConnFixture f(150);
+  ConnFixture f(3000);                        // the peer stays until it sees the close (no peer close racing the operation:
+                                              // that is the lost-update consequence of F-11, see findings/C08.md)
   sleep_ms(20);
   f.conn->shutdown();                         // a single shutdown from a foreign thread
   sleep_ms(60);
@@ -233,6 +236,15 @@ void onClientConn(const TcpConnectionPtr& conn)
 {
   if (conn->connected()) ++g_cup; else ++g_cdown;
 }
+// Tear a TcpClient down the only way its source calls safe: on its own loop thread (~TcpClient: "FIXME: not 100% safe,
+// if we are in different thread"; Connector::stop()/start() post functors bound to the raw `this`, "FIXME: unsafe").
+// The destructor is not one of the any-thread operations of C08; destroying the client on the calling thread is the
+// F-13 lifetime hazard, shown on purpose by x_client_stop_then_foreign_dtor only (docs/C08.md).
+void deleteClient(TcpClient* c) { delete c; }
+void destroyOnLoop(LoopHost& host, TcpClient* client)
+{
+  host.loop()->runInLoop(std::bind(&deleteClient, client));
+}
 }  // namespace
 
 C08_SCENARIO(client_connect_connection_disconnect)
@@ -253,8 +265,7 @@ C08_SCENARIO(client_connect_connection_disconnect)
   client->disconnect();                       // foreign thread
   for (int i = 0; i < 200 && g_cdown.load() == 0; ++i) ::usleep(1000);
   sleep_ms(30);
-  // destroy on the loop thread's behalf only after the connection is down (lifetime is not this scenario's subject)
-  delete client;
+  destroyOnLoop(host, client);                // lifetime is not this scenario's subject
   sleep_ms(20);
   if (seen < 0) printf("x\n");
 }
@@ -268,7 +279,7 @@ C08_SCENARIO(client_stop)
   sleep_ms(30);
   client->stop();                             // foreign thread while the connector is in its retry cycle
   sleep_ms(60);
-  delete client;
+  destroyOnLoop(host, client);
   sleep_ms(1100);                             // ~TcpClient posts removeConnector 1 s later (FIXME: HACK in the source)
 }
 
@@ -290,8 +301,26 @@ C08_SCENARIO(client_flags_vs_loop)
   client->stop();
   for (int i = 0; i < 300 && g_cdown.load() < g_cup.load(); ++i) ::usleep(1000);
   sleep_ms(30);
-  delete client;
+  destroyOnLoop(host, client);
   sleep_ms(1100);
+}
+
+// NOT part of the default suite (x_): the F-13 family lifetime hazard.  stop() posts Connector::stopInLoop bound to the raw
+// `this`; with a live connection ~TcpClient does not hand connector_ to the loop (that is only done in its else-branch), so
+// the Connector is freed on the calling thread with nothing ordering the loop thread's stopInLoop before the free.
+C08_SCENARIO(x_client_stop_then_foreign_dtor)
+{
+  RawServer srv(600);
+  LoopHost host;
+  TcpClient* client = new TcpClient(host.loop(), InetAddress("127.0.0.1", static_cast<uint16_t>(srv.port)), "c08cli");
+  client->setConnectionCallback(onClientConn);
+  client->connect();
+  for (int i = 0; i < 400 && g_cup.load() == 0; ++i) ::usleep(500);
+  sleep_ms(10);
+  client->stop();                             // any-thread operation: queues stopInLoop(raw this)
+  sleep_ms(20);                               // in real time the loop has run it by now; no happens-before says so
+  delete client;                              // foreign-thread destruction: frees the Connector here
+  sleep_ms(60);
 }
 
 // F-11: TcpClient::connect_ is stored by disconnect() callers and read by the loop in removeConnection
@@ -311,7 +340,7 @@ C08_SCENARIO(client_disconnect_flag_vs_loop)
   }
   for (int i = 0; i < 300 && g_cdown.load() < g_cup.load(); ++i) ::usleep(1000);
   sleep_ms(30);
-  delete client;
+  destroyOnLoop(host, client);
   sleep_ms(1100);
 }
 
@@ -329,6 +358,6 @@ C08_SCENARIO(connector_flag_vs_loop)
     ::usleep(100);
   }
   sleep_ms(30);
-  delete client;
+  destroyOnLoop(host, client);
   sleep_ms(1100);
 }
